@@ -221,7 +221,7 @@ Proof. vm_compute. reflexivity. Qed.
    Text layer (src/peripheral/broker/etrade.rs): Model/EtradeText.v,
    Spec/EtradeLayout.v; proofs in Proofs/EtradeTextRT.v, EtradeTextProps.v.   *)
 From ACB Require Import Model.QText Model.EtradeText Spec.EtradeLayout Proofs.EtradeTextRT Proofs.EtradeTextProps
-  Proofs.EtradeTextESPP.
+  Proofs.EtradeTextESPP Proofs.EtradeTextESO.
 
 (* The statement's data is returned exactly: for EVERY well-formed release
    confirmation (any symbol of upper-case letters and dots, any valid date, any
@@ -265,6 +265,16 @@ Proof. exact espp_text_roundtrip. Qed.
 Check C19_espp_text_roundtrip : forall st r,
   wf_espp r = true -> parse_espp (render_espp st r) = Ok (espp_record r).
 Print Assumptions C19_espp_text_roundtrip.
+
+(* Option-exercise confirmations: any number n >= 1 of grants (grant numbers of at most 19 digits, amounts
+   with thousands separators, a common sale price, a fee sum that does not overflow), any exercise type of
+   words, any valid date, both styles: n grants in, n benefits out, the sell-to-cover on the last. *)
+Theorem C19_eso_text_roundtrip : forall st r,
+  wf_eso r = true -> parse_eso (render_eso st r) = Ok (eso_records r).
+Proof. exact eso_text_roundtrip. Qed.
+Check C19_eso_text_roundtrip : forall st r,
+  wf_eso r = true -> parse_eso (render_eso st r) = Ok (eso_records r).
+Print Assumptions C19_eso_text_roundtrip.
 
 (* The other three kinds: the full statements, and what is proved of them
    (instances by computation: the unit-test documents of etrade.rs rebuilt,
